@@ -9,6 +9,7 @@ package ucfg
 //@ func (*cfgInt).toUint
 //@ props C03
 //@ mode bv
+//@ pure
 //@ requires c != nil
 //@ ensures [neg] c.i < 0 ==> err != nil
 //@ ensures [val] c.i >= 0 ==> err == nil && math(result) == math(c.i)
@@ -16,6 +17,7 @@ package ucfg
 //@ func (*cfgUint).toInt
 //@ props C03
 //@ mode bv
+//@ pure
 //@ requires c != nil
 //@ ensures [ovf] math(c.u) > mathlit(9223372036854775807) ==> err != nil
 //@ ensures [val] math(c.u) <= mathlit(9223372036854775807) ==> err == nil && math(result) == math(c.u)
@@ -23,6 +25,7 @@ package ucfg
 //@ func (*cfgFloat).toInt
 //@ props C03
 //@ mode bv
+//@ pure
 //@ requires c != nil
 //@ ensures [val] err == nil ==> !isNaN(c.f) && c.f >= -pow2f(63) && c.f < pow2f(63)
 //@ ensures [trunc] err == nil ==> result == f2i64(c.f)
@@ -32,6 +35,7 @@ package ucfg
 //@ func (*cfgFloat).toUint
 //@ props C03
 //@ mode bv
+//@ pure
 //@ requires c != nil
 //@ ensures [val] err == nil ==> !isNaN(c.f) && c.f > -pow2f(0) && c.f < pow2f(64)
 //@ ensures [trunc] err == nil ==> result == f2u64(c.f)
@@ -458,36 +462,42 @@ package ucfg
 //@ func (*cfgInt).toInt
 //@ props C03
 //@ mode bv
+//@ pure
 //@ requires c != nil
 //@ ensures [val] err == nil && result == c.i
 
 //@ func (*cfgInt).toFloat
 //@ props C03
 //@ mode bv
+//@ pure
 //@ requires c != nil
 //@ ensures [val] err == nil && same(result, fps(c.i))
 
 //@ func (*cfgUint).toUint
 //@ props C03
 //@ mode bv
+//@ pure
 //@ requires c != nil
 //@ ensures [val] err == nil && result == c.u
 
 //@ func (*cfgUint).toFloat
 //@ props C03
 //@ mode bv
+//@ pure
 //@ requires c != nil
 //@ ensures [val] err == nil && same(result, fpu(c.u))
 
 //@ func (*cfgFloat).toFloat
 //@ props C03
 //@ mode bv
+//@ pure
 //@ requires c != nil
 //@ ensures [val] err == nil && same(result, c.f)
 
 //@ func (*cfgBool).toBool
 //@ props C03
 //@ mode bv
+//@ pure
 //@ requires c != nil
 //@ ensures [val] err == nil && result == c.b
 
@@ -1478,3 +1488,132 @@ package ucfg
 //@ ensures [hit_val] old(has(cache, id)) && old(cache[id].err) == nil ==> v == old(cache[id].value) && err == nil
 //@ ensures [store_only_cacheable] !old(has(cache, id)) && !(v != nil && cacheable(v)) ==> !has(cache, id)
 //@ ghost func idStr(id cacheID) string
+
+// ---------------------------------------------------------------- C06 / C07: normalizing one Go value
+
+//@ ghost func chased(v reflect.Value) reflect.Value
+//@ func chaseValue :: v -> r
+//@ props C04 C06
+//@ pure
+//@ ensures [naming !unproved] r == chased(v)
+//@ ensures [scalar_is_itself] rvKind(v) != 22 && rvKind(v) != 20 ==> r == v
+//@ loop 1 invariant rvKind(entry(v)) != 22 && rvKind(entry(v)) != 20 ==> v == entry(v)
+
+//@ func normalizeValue :: opts, tagOpts, ctx, v -> r, err
+//@ props C06 C07
+//@ norte assert nil
+//@ sweep
+//@ requires opts != nil
+//@ modifies *
+//@ ensures [int_pos @C06] rvType(chased(v)) != old(tDuration) && rvType(chased(v)) != old(tRegexp) && 2 <= rvKind(chased(v)) && rvKind(chased(v)) <= 6 && rvInt(chased(v)) > 0 ==> err == nil && typeof(r) == *cfgUint && r.(*cfgUint) != nil && r.(*cfgUint).u == rvInt(chased(v))
+//@ ensures [int_nonpos @C06] rvType(chased(v)) != old(tDuration) && rvType(chased(v)) != old(tRegexp) && 2 <= rvKind(chased(v)) && rvKind(chased(v)) <= 6 && rvInt(chased(v)) <= 0 ==> err == nil && typeof(r) == *cfgInt && r.(*cfgInt) != nil && r.(*cfgInt).i == rvInt(chased(v))
+//@ ensures [uint @C06] rvType(chased(v)) != old(tDuration) && rvType(chased(v)) != old(tRegexp) && 7 <= rvKind(chased(v)) && rvKind(chased(v)) <= 11 ==> err == nil && typeof(r) == *cfgUint && r.(*cfgUint) != nil && r.(*cfgUint).u == rvUint(chased(v))
+//@ ensures [float @C06] rvType(chased(v)) != old(tDuration) && rvType(chased(v)) != old(tRegexp) && (rvKind(chased(v)) == 13 || rvKind(chased(v)) == 14) ==> err == nil && typeof(r) == *cfgFloat && r.(*cfgFloat) != nil && same(r.(*cfgFloat).f, rvFloat(chased(v)))
+//@ ensures [bool @C06] rvType(chased(v)) != old(tDuration) && rvType(chased(v)) != old(tRegexp) && rvKind(chased(v)) == 1 ==> err == nil && typeof(r) == *cfgBool && r.(*cfgBool).b == rvBool(chased(v))
+//@ ensures [ctx @C06,C15] rvType(chased(v)) != old(tDuration) && rvType(chased(v)) != old(tRegexp) && 1 <= rvKind(chased(v)) && rvKind(chased(v)) <= 14 && rvKind(chased(v)) != 12 && err == nil ==> ctxof(r) == ctx && metaof(r) == old(opts.meta)
+
+// the old value handed to the slice merge is invalid or of slice kind (its callers dispatch on the kind)
+//@ ghost func rvValid(v reflect.Value) bool
+//@ func reifySliceMerge :: opts, old, tTo, val -> r, err
+//@ props C07
+//@ sweep
+//@ requires !rvValid(old) || nilableKind(rvKind(old))
+
+// ---------------------------------------------------------------- C06 / C13: struct tags (the one parser used on the way in and on the way out)
+
+//@ func fieldName :: tagName, structName -> r
+//@ props C06
+//@ pure
+//@ ensures [tagged] tagName != "" ==> r == tagName
+//@ ensures [default] tagName == "" ==> r == lower(structName)
+
+//@ func parseTags :: tag -> name, opts
+//@ props C06 C13
+//@ pure
+//@ ensures [name] name == splitAt(tag, ",", 0)
+//@ ensures [ignore] opts.ignore == exists j int :: 1 <= j && j < splitLen(tag, ",") && splitAt(tag, ",", j) == "ignore"
+//@ ensures [squash] opts.squash == exists j int :: 1 <= j && j < splitLen(tag, ",") && (splitAt(tag, ",", j) == "squash" || splitAt(tag, ",", j) == "inline")
+//@ ensures [no_handling] (forall j int :: 1 <= j && j < splitLen(tag, ",") ==> splitAt(tag, ",", j) != "merge" && splitAt(tag, ",", j) != "replace" && splitAt(tag, ",", j) != "append" && splitAt(tag, ",", j) != "prepend") ==> opts.cfgHandling == cfgDefaultHandling
+//@ ensures [last_handling] splitLen(tag, ",") >= 2 && splitAt(tag, ",", splitLen(tag, ",") - 1) == "append" ==> opts.cfgHandling == cfgArrAppend
+//@ ensures [last_handling2] splitLen(tag, ",") >= 2 && splitAt(tag, ",", splitLen(tag, ",") - 1) == "prepend" ==> opts.cfgHandling == cfgArrPrepend
+//@ ensures [last_handling3] splitLen(tag, ",") >= 2 && splitAt(tag, ",", splitLen(tag, ",") - 1) == "replace" ==> opts.cfgHandling == cfgReplaceValue
+//@ ensures [last_handling4] splitLen(tag, ",") >= 2 && splitAt(tag, ",", splitLen(tag, ",") - 1) == "merge" ==> opts.cfgHandling == cfgMergeValues
+//@ loop 1 invariant len(s) == splitLen(tag, ",") && len(s) >= 1 && forall j int :: 0 <= j && j < len(s) ==> s[j] == splitAt(tag, ",", j)
+//@ loop 1 invariant -1 <= rangeindex && rangeindex < len(s) - 1
+//@ loop 1 invariant opts.ignore == exists j int :: 1 <= j && j <= rangeindex + 1 && splitAt(tag, ",", j) == "ignore"
+//@ loop 1 invariant opts.squash == exists j int :: 1 <= j && j <= rangeindex + 1 && (splitAt(tag, ",", j) == "squash" || splitAt(tag, ",", j) == "inline")
+//@ loop 1 invariant (forall j int :: 1 <= j && j <= rangeindex + 1 ==> splitAt(tag, ",", j) != "merge" && splitAt(tag, ",", j) != "replace" && splitAt(tag, ",", j) != "append" && splitAt(tag, ",", j) != "prepend") ==> opts.cfgHandling == cfgDefaultHandling
+//@ loop 1 invariant rangeindex >= 0 && splitAt(tag, ",", rangeindex + 1) == "append" ==> opts.cfgHandling == cfgArrAppend
+//@ loop 1 invariant rangeindex >= 0 && splitAt(tag, ",", rangeindex + 1) == "prepend" ==> opts.cfgHandling == cfgArrPrepend
+//@ loop 1 invariant rangeindex >= 0 && splitAt(tag, ",", rangeindex + 1) == "replace" ==> opts.cfgHandling == cfgReplaceValue
+//@ loop 1 invariant rangeindex >= 0 && splitAt(tag, ",", rangeindex + 1) == "merge" ==> opts.cfgHandling == cfgMergeValues
+
+// ---------------------------------------------------------------- C04: the built-in validators against their documentation
+
+//@ func validatePositive :: v, _ -> result
+//@ props C04
+//@ mode bv
+//@ pure
+//@ ensures [nil] v == nil ==> result == nil
+//@ ensures [duration] typeof(v) == time.Duration ==> (result == nil) == (v.(time.Duration) >= 0)
+//@ ensures [int] v != nil && typeof(v) != time.Duration && 2 <= anyKind(v) && anyKind(v) <= 6 ==> (result == nil) == (anyInt(v) >= 0)
+//@ ensures [float] v != nil && typeof(v) != time.Duration && (anyKind(v) == 13 || anyKind(v) == 14) ==> (result == nil) == (anyFloat(v) >= 0)
+//@ ensures [other] v != nil && typeof(v) != time.Duration && !(2 <= anyKind(v) && anyKind(v) <= 6) && anyKind(v) != 13 && anyKind(v) != 14 ==> result == nil
+
+//@ ghost func p2dOk(param string) bool
+//@ ghost func p2dVal(param string) time.Duration
+//@ ghost func parsesDur(param string) bool
+//@ ghost func durOf(param string) time.Duration
+
+//@ func param2Duration :: param -> d, err
+//@ props C04
+//@ mode bv
+//@ norte conv
+//@ pure
+//@ ensures [naming_ok !unproved] (err == nil) == p2dOk(param)
+//@ ensures [naming_val !unproved] err == nil ==> d == p2dVal(param)
+//@ ensures [with_unit] parsesDur(param) ==> err == nil && d == durOf(param)
+//@ ensures [seconds] !parsesDur(param) && parsesFloat(param) && !isNaN(floatOf(param) * 1000000000) && floatOf(param) * 1000000000 >= -pow2f(63) && floatOf(param) * 1000000000 < pow2f(63) ==> err == nil && d == f2i64(floatOf(param) * 1000000000)
+//@ ensures [neither] !parsesDur(param) && !parsesFloat(param) ==> err != nil
+
+//@ func validateMin :: v, param -> result
+//@ props C04
+//@ mode bv
+//@ pure
+//@ ensures [nil] v == nil ==> result == nil
+//@ ensures [duration] typeof(v) == time.Duration && p2dOk(param) ==> (result == nil) == (v.(time.Duration) >= p2dVal(param))
+//@ ensures [duration_badparam] typeof(v) == time.Duration && !p2dOk(param) ==> result != nil
+//@ ensures [int] v != nil && typeof(v) != time.Duration && 2 <= anyKind(v) && anyKind(v) <= 6 && parsesInt(param) ==> (result == nil) == (anyInt(v) >= intOf(param))
+//@ ensures [uint] v != nil && typeof(v) != time.Duration && 7 <= anyKind(v) && anyKind(v) <= 11 && parsesUint(param) ==> (result == nil) == (anyUint(v) >= uintOf(param))
+//@ ensures [float] v != nil && typeof(v) != time.Duration && (anyKind(v) == 13 || anyKind(v) == 14) && parsesFloat(param) ==> (result == nil) == (anyFloat(v) >= floatOf(param))
+//@ ensures [badparam] v != nil && typeof(v) != time.Duration && ((2 <= anyKind(v) && anyKind(v) <= 6 && !parsesInt(param)) || (7 <= anyKind(v) && anyKind(v) <= 11 && !parsesUint(param)) || ((anyKind(v) == 13 || anyKind(v) == 14) && !parsesFloat(param))) ==> result != nil
+
+//@ func validateMax :: v, param -> result
+//@ props C04
+//@ mode bv
+//@ pure
+//@ ensures [nil] v == nil ==> result == nil
+//@ ensures [duration] typeof(v) == time.Duration && p2dOk(param) ==> (result == nil) == (v.(time.Duration) <= p2dVal(param))
+//@ ensures [duration_badparam] typeof(v) == time.Duration && !p2dOk(param) ==> result != nil
+//@ ensures [int] v != nil && typeof(v) != time.Duration && 2 <= anyKind(v) && anyKind(v) <= 6 && parsesInt(param) ==> (result == nil) == (anyInt(v) <= intOf(param))
+//@ ensures [uint] v != nil && typeof(v) != time.Duration && 7 <= anyKind(v) && anyKind(v) <= 11 && parsesUint(param) ==> (result == nil) == (anyUint(v) <= uintOf(param))
+//@ ensures [float] v != nil && typeof(v) != time.Duration && (anyKind(v) == 13 || anyKind(v) == 14) && parsesFloat(param) ==> (result == nil) == (anyFloat(v) <= floatOf(param))
+
+//@ func validateNonZero :: v, name -> result
+//@ props C04
+//@ mode bv
+//@ pure
+//@ ensures [nil] v == nil ==> result == nil
+//@ ensures [duration] typeof(v) == time.Duration ==> (result == nil) == (v.(time.Duration) != 0)
+//@ ensures [int] v != nil && typeof(v) != time.Duration && 2 <= anyKind(v) && anyKind(v) <= 6 ==> (result == nil) == (anyInt(v) != 0)
+//@ ensures [uint] v != nil && typeof(v) != time.Duration && 7 <= anyKind(v) && anyKind(v) <= 11 ==> (result == nil) == (anyUint(v) != 0)
+//@ ensures [float] v != nil && typeof(v) != time.Duration && (anyKind(v) == 13 || anyKind(v) == 14) ==> (result == nil) == !(anyFloat(v) == 0)
+
+//@ func runValidators :: val, validators -> result
+//@ props C04
+//@ dynpure
+//@ pure
+//@ ensures [all_accept] result == nil ==> forall j int :: 0 <= j && j < len(validators) ==> dyn0(validators[j].cb, error, val, validators[j].param) == nil
+//@ ensures [first_reject] result != nil ==> exists j int :: 0 <= j && j < len(validators) && result == dyn0(validators[j].cb, error, val, validators[j].param) && forall i int :: 0 <= i && i < j ==> dyn0(validators[i].cb, error, val, validators[i].param) == nil
+//@ loop 1 invariant -1 <= rangeindex && rangeindex < len(validators)
+//@ loop 1 invariant forall j int :: 0 <= j && j <= rangeindex ==> dyn0(validators[j].cb, error, val, validators[j].param) == nil
